@@ -1,8 +1,218 @@
-(** C14 – config compiler.  Property theorems only. *)
-From Coq Require Import List.
-From RimeV Require Import CfgC.Str CfgC.Tree CfgC.Spec.
-Import ListNotations.
+(** C14 – config compiler: includes copy, patches apply in order, sources stay
+    untouched.  Property theorems only; each closed by [exact] of a lemma
+    proved under coq/CfgC.
 
-Theorem C14_spec_missing_document : forall fuel name, compile_spec [] fuel name = Null.
-Proof. reflexivity. Qed.
-Print Assumptions C14_spec_missing_document.
+    Models: [compile_spec] (CfgC/Spec.v) is the property's right-hand side, a
+    pure sharing-free interpreter; [compile_impl] (CfgC/Impl.v) is a port of
+    the implemented algorithm over an explicit heap of shared nodes. *)
+From Coq Require Import List Arith Bool.
+From RimeV Require Import CfgC.Str CfgC.Tree CfgC.Spec CfgC.Impl CfgC.ImplFacts CfgC.DepsProofs
+  CfgC.TermProofs CfgC.EditProofs CfgC.SpecProofs CfgC.ShareProofs CfgC.ConvProofs CfgC.Examples.
+Import ListNotations.
+From Coq.Strings Require String.
+Import String.StringSyntax.
+Open Scope string_scope.
+
+(** * dependency ordering *)
+
+(** Whatever the order in which dependencies are added at a path
+    (InsertByPriority), the list ResolveDependencies walks is: pending
+    children, then includes, then patches, each class in insertion order. *)
+Theorem C14_deps_order :
+  forall ds : list dep, fold_left insert_by_priority ds [] = by_classes ds.
+Proof. exact inserts_by_classes. Qed.
+Print Assumptions C14_deps_order.
+
+Theorem C14_deps_order_in_graph :
+  forall st path ds, deps_at st path = None -> ds <> [] ->
+  deps_at (fold_left (fun s d => add_dep_at s path d) ds st) path = Some (by_classes ds).
+Proof. exact deps_after_adds. Qed.
+Print Assumptions C14_deps_order_in_graph.
+
+Theorem C14_deps_sorted :
+  forall ds i j, i <= j -> j < length (by_classes ds) ->
+  priority (nth i (by_classes ds) (DPending [])) <= priority (nth j (by_classes ds) (DPending [])).
+Proof. exact by_classes_sorted. Qed.
+Print Assumptions C14_deps_sorted.
+
+(** * algebra of the node editor *)
+
+Theorem C14_set_then_get :
+  forall ks top v, Forall stable_key ks -> read_keys (write_keys top ks v) ks = v.
+Proof. exact set_then_get. Qed.
+Print Assumptions C14_set_then_get.
+
+Theorem C14_set_then_set :
+  forall ks top v w, Forall stable_key ks ->
+  write_keys (write_keys top ks v) ks w = write_keys top ks w.
+Proof. exact set_then_set. Qed.
+Print Assumptions C14_set_then_set.
+
+(** [@before i] / [@after i-1]: the value lands in front of the old element i *)
+Theorem C14_insert_before :
+  forall l k i v, is_list_ref k = true -> resolve_index (length l) k = (i, true) -> i <= length l ->
+  write_child (Lst l) k v = Lst (firstn i l ++ v :: skipn i l).
+Proof. exact write_child_insert. Qed.
+Print Assumptions C14_insert_before.
+
+Theorem C14_append_assoc :
+  forall path top tl l1 l2 mt, Forall stable_key path -> read_keys top path = Lst tl ->
+  edit_node (Lst l2) (fst (edit_node (Lst l1) top path s_append mt)) path s_append mt =
+  edit_node (Lst (l1 ++ l2)) top path s_append mt.
+Proof. exact append_assoc. Qed.
+Print Assumptions C14_append_assoc.
+
+Theorem C14_append_assoc_string :
+  forall path top t s1 s2 mt, Forall stable_key path -> read_keys top path = Scalar t ->
+  edit_node (Scalar s2) (fst (edit_node (Scalar s1) top path s_append mt)) path s_append mt =
+  edit_node (Scalar (s1 ++ s2)) top path s_append mt.
+Proof. exact append_assoc_string. Qed.
+Print Assumptions C14_append_assoc_string.
+
+Theorem C14_merge_idem :
+  forall vm m, plain_entries vm ->
+  exists m1 m2,
+    merge_tree vm (Map m) [] = (Map m1, true) /\
+    merge_tree vm (Map m1) [] = (Map m2, true) /\
+    forall k, alookup k m2 = alookup k m1.
+Proof. exact merge_idem. Qed.
+Print Assumptions C14_merge_idem.
+
+(** non-vacuity of the key classes used above *)
+Theorem C14_keys_nonvacuous :
+  stable_key (bs "ground_units") /\ plain_key (bs "player") /\
+  resolve_index 5 (bs "@before 2") = (2, true) /\ resolve_index 5 (bs "@after last") = (5, true) /\
+  resolve_index 5 (bs "@next") = (5, false) /\ resolve_index 5 (bs "@last") = (4, false) /\
+  resolve_index 5 (bs "@3") = (3, false).
+Proof.
+  split; [left; reflexivity|]. split.
+  - repeat split; try discriminate. intros H. vm_compute in H. intuition discriminate.
+  - vm_compute. repeat split.
+Qed.
+Print Assumptions C14_keys_nonvacuous.
+
+(** * a directive-free document compiles to itself *)
+
+Theorem C14_plain_fixed_spec :
+  forall ds f name y,
+  alookup (to_resource_id name) ds = Some y ->
+  directive_free y = true ->
+  alookup (custom_id (to_resource_id name)) ds = None ->
+  ends_with (to_resource_id name) s_schema = false ->
+  spec_link ds (S f) name = (true, y2item y, fl0, true).
+Proof. exact spec_plain_fixed. Qed.
+Print Assumptions C14_plain_fixed_spec.
+
+(** the implemented conversion: no dependency is registered and the new heap
+    region reads back as the document, whatever happens to the heap outside
+    that region afterwards *)
+Theorem C14_plain_fixed_convert :
+  forall y, directive_free y = true ->
+  forall ns ks st,
+    let r := convert y ns ks st in
+    st_deps (snd r) = st_deps st /\
+    forall wf h'', ydepth y <= wf ->
+      agree_on (length (st_heap st)) (length (st_heap (snd r))) (st_heap (snd r)) h'' ->
+      readback wf h'' (fst r) = (y2item y, true).
+Proof.
+  intros y Hd ns ks st. destruct (convert_plain y Hd ns ks st) as (O & _ & _ & R).
+  split; [apply O|exact R].
+Qed.
+Print Assumptions C14_plain_fixed_convert.
+
+(** * sources stay untouched: no write through sharing *)
+
+(** A write through a fresh copy-on-write reference changes no node that
+    existed before except the container of the slot the reference is anchored
+    at: every well-formed tree of the old heap that does not contain that
+    container reads back unchanged, and no other resource's root moves. *)
+Theorem C14_sources_untouched_by_cow_write :
+  forall r st v wf q, fresh r ->
+  avoids wf (st_heap st) (anchor st r) q = true ->
+  readback wf (st_heap (fst (set_item st r v))) q = readback wf (st_heap st) q.
+Proof. exact cow_write_leaves_sources_untouched. Qed.
+Print Assumptions C14_sources_untouched_by_cow_write.
+
+Theorem C14_other_roots_untouched_by_cow_write :
+  forall r st v id, fresh r -> Some id <> base_res r ->
+  res_root (fst (set_item st r v)) id = res_root st id.
+Proof. exact cow_write_leaves_other_roots. Qed.
+Print Assumptions C14_other_roots_untouched_by_cow_write.
+
+(** memory operations (references, EditNode, MergeTree, patches, includes)
+    never touch the dependency graph or the resolve chain *)
+Theorem C14_edit_keeps_graph :
+  forall wf st head key value mt, sg st (snd (fst (edit_node_h wf st head key value mt))).
+Proof. exact sg_edit_node_h. Qed.
+Print Assumptions C14_edit_keeps_graph.
+
+(** * termination on every document set, cyclic ones included *)
+
+(** ResolveDependencies: from any state satisfying the graph invariant, with
+    fuel above (number of dependency-bearing paths) - (chain length), the
+    recursion does not run out of fuel, keeps the invariant, and never
+    shortens the chain. *)
+Theorem C14_resolve_terminates :
+  forall ds wf U,
+  (forall u, In u U -> ends_with (to_resource_id u) s_custom = false -> In (custom_id (to_resource_id u)) U) ->
+  (forall u y, In u U -> alookup (to_resource_id u) ds = Some y ->
+     forall s, In s (scalars y) -> In (r_res (create_reference (cur_of (to_resource_id u)) s)) U) ->
+  forall fuel path st, ginv ds U st -> NP ds U - length (st_chain st) < fuel ->
+  good ds U st (snd (resolve_deps ds wf fuel path st)).
+Proof. exact resolve_deps_good. Qed.
+Print Assumptions C14_resolve_terminates.
+
+(** ConfigBuilder::LoadConfig (Compile, Link with the production plugins):
+    for every document set and every target, fuel above the explicit bound
+    [2 * (5 + #scalars) * (1 + max #nodes of a document)] is never exhausted. *)
+Theorem C14_compile_total_resolve :
+  forall ds wf fuel, fuel_bound ds < fuel -> forall name, o_oof (compile_impl ds wf fuel name) = false.
+Proof. exact compile_impl_resolve_total. Qed.
+Print Assumptions C14_compile_total_resolve.
+
+(** full statement (not proved): neither kind of fuel is exhausted.  Missing:
+    acyclicity of the heap that the walks of MergeTree / readback go down
+    (an in-place store into a parse-time container of a node that contains
+    this container would make it cyclic; the cycle check of
+    ResolveDependencies is what prevents it). *)
+Definition C14_compile_total_full : Prop :=
+  forall ds name, exists wf fuel, forall wf' fuel', wf <= wf' -> fuel <= fuel' ->
+    o_oof (compile_impl ds wf' fuel' name) = false /\ o_woof (compile_impl ds wf' fuel' name) = false.
+
+(** * the port of the implementation against the specification *)
+
+(** full statement (not proved in general): on runs the specification
+    classifies as clear (acyclic, no error) the implemented algorithm yields
+    the specified tree. *)
+Definition C14_impl_refines_spec_full : Prop :=
+  forall ds name, exists n, forall wf fuel sfuel, n <= wf -> n <= fuel -> n <= sfuel ->
+    let '(loaded, v, fl, linked) := spec_link ds sfuel name in
+    fl_clear fl = true -> loaded = true ->
+    o_tree (compile_impl ds wf fuel name) = (if linked then v else o_tree (compile_impl ds wf fuel name)) /\
+    o_linked (compile_impl ds wf fuel name) = linked.
+
+(** proved instances: the repository's own fixtures (computed), with includes,
+    patch lists, appends, merges, optional references; and the cyclic fixture
+    on which only termination and the best-effort result are claimed *)
+Theorem C14_impl_refines_spec_fixtures :
+  forallb agree ["config_compiler_test"; "config_merge_test"; "config_dependency_test";
+                 "starcraft"; "config_test"] = true.
+Proof. exact fixtures_agree. Qed.
+Print Assumptions C14_impl_refines_spec_fixtures.
+
+Theorem C14_cyclic_fixture_terminates :
+  let '(_, _, fl, _) := fx_spec "config_circular_dependency_test" in
+  let o := fx_impl "config_circular_dependency_test" in
+  f_cyc fl = true /\ o_linked o = true /\ o_oof o = false /\
+  at_path (o_tree o) "test/home" = Scalar (bs "naive") /\
+  at_path (o_tree o) "test/work" = Scalar (bs "excited").
+Proof. exact circular_fixture. Qed.
+Print Assumptions C14_cyclic_fixture_terminates.
+
+Theorem C14_patches_apply_in_order_example :
+  let v := o_tree (fx_impl "config_compiler_test") in
+  at_path v "patch_list/protoss/ground_units/@6" = Scalar (bs "dark templar") /\
+  at_path v "patch_list/protoss/ground_units/@7" = Scalar (bs "dark archon") /\
+  at_path v "starcraft/protoss/ground_units/@6" = Null.
+Proof. exact patch_list_appends_in_order. Qed.
+Print Assumptions C14_patches_apply_in_order_example.
